@@ -24,6 +24,12 @@
 (*    --preserve-private-addresses adds the three RFC 1918 networks to     *)
 (*    the preserved addresses (sets: listing them is the same thing).      *)
 (*                                                                         *)
+(* A salt that is given - even the empty string - is a salt: "undo without  *)
+(* salt" means no salt option at all, a run with salt "" is the library    *)
+(* run with salt "" (repeatable, byte for byte), and undoing with the salt *)
+(* that anonymized restores the addresses (RoundTripVerdict; the library-  *)
+(* level statement is C02, here it pins the CLI's handling of the salt).   *)
+(*                                                                         *)
 (* Don't-care regions (either outcome accepted):                           *)
 (*  - an unusable value in the config file (host bits out of range, empty  *)
 (*    input/output) that the command line overrides with a usable one      *)
@@ -48,7 +54,7 @@ Opts   == Flags \cup Valued
 
 Dom == [ i  |-> {"in1", "in2", "EMPTY"},
          o  |-> {"out1", "out2", "EMPTY"},
-         s  |-> {"s1", "s2"},
+         s  |-> {"s1", "s2", "EMPTY"},   \* the empty string is a salt like any other
          d  |-> {"map1", "map2"},
          w  |-> {"w1", "w2"},
          n  |-> {"n1", "n2"},
@@ -133,6 +139,14 @@ Verdict(v, outcome, created, intact) ==
   ELSE IF "out" \notin created THEN "NothingWritten"
   ELSE "ok"
 
+\* main -a -s X -i IN -o MID ; main -u -s X -i MID -o OUT  (two fresh processes,
+\* the salt option in the same place both times): both must complete normally
+\* and OUT must be IN again.  (Inputs whose image is mask-shaped are excluded
+\* by C02; the harness material has none.)
+RoundTripVerdict(o1, o2, restored) ==
+  IF o1 \notin Normal \/ o2 \notin Normal THEN "RoundTripRunRejected"
+  ELSE IF ~restored THEN "UndoWithGivenSaltDoesNotRestore" ELSE "ok"
+
 \* ---- theorems of R (checked by TLC over the model space, see CliImpl) --------
 Flip(v, o, c, f) == [v EXCEPT !.cli[o] = c, !.cfg[o] = f]
 \* the same effective value in either place or both (command line winning) is the same vector
@@ -169,5 +183,10 @@ ListedRejects(v) ==
   /\ Decision(v) = "Run" /\ ~MayReject(v) => \A cr \in SUBSET {"out", "dump", "other"} :
         /\ Verdict(v, "exit", cr, TRUE) # "ok" /\ Verdict(v, "exc", cr, TRUE) # "ok"
         /\ "out" \notin cr => Verdict(v, "return", cr, TRUE) # "ok"
-RTheorems(v) == PlacementIrrelevant(v) /\ DefaultsApply(v) /\ PrivateIsListing(v) /\ ListedRejects(v)
+EmptySaltIsASalt(v) ==
+  Eff(v, "s") = "EMPTY" => /\ "undo-without-salt" \notin Reasons(v)
+                           /\ Comparable(v)
+                           /\ Decision(v) = Decision(Flip(v, "s", "s1", None))
+                           /\ Params(v).salt = "EMPTY"
+RTheorems(v) == EmptySaltIsASalt(v) /\ PlacementIrrelevant(v) /\ DefaultsApply(v) /\ PrivateIsListing(v) /\ ListedRejects(v)
 =============================================================================
